@@ -48,6 +48,14 @@ def gen_program(rng, mode):
                 written[res] += k
                 steps.append((4, res, k))
         elif what == "poll":
+            if mode == "c05" and rng.random() < 0.35:
+                # something else is ready when the driver is polled
+                res = rng.randrange(n_res)
+                if written[res] + 2 < 240:
+                    written[res] += 2
+                    steps.append((4, res, 2))
+                    steps.append((1, res, rng.choice([1, 2, 8])))
+                    nslots += 1
             steps.append((5, rng.choice([0, 0, 5, 10]), 0))
         elif what == "pop":
             if rng.random() < 0.25:
